@@ -64,7 +64,15 @@ RULE = ('Hypothesis: FileSpec (1-4 dims of length 1-4, 1-4 numeric variables '
         'sets) are applied to the SAME input objects and every result is '
         'judged against the model of the ORIGINAL spec, so a call that '
         'alters its input shows as a wrong later result (klass '
-        '@later-call).  Distinct by sha1 of the case spec.')
+        '@later-call).  Chains: 40% of the operator cases use the RESULT '
+        'again - as left operand of a further operator with a third file, '
+        'in .mask(..) or in .eval(..) - for 1-2 steps; each step is judged '
+        'like a first step against the model, in which coordinate and '
+        'right-absent variables are still the ORIGINAL left operand\'s and '
+        'computed variables are the already judged values of the previous '
+        'step (klass @chained).  A third of the eval cases carry a global '
+        'attribute (number or text) named like a variable the expression '
+        'uses.  Distinct by sha1 of the case spec.')
 ASSUMPTIONS = ['numpy ufuncs on the raw data are the reference for operator '
                'values; numpy.ma for eval',
                'character variables and unsigned dtypes are outside the '
@@ -87,6 +95,9 @@ OPF = {'+': operator.add, '-': operator.sub, '*': operator.mul,
 PREDS = ['less', 'less_equal', 'greater', 'greater_equal', 'values', 'equal',
          'invalid']
 TINY = np.finfo(float).tiny
+# order in which mask() applies its predicates (after where)
+LIBORDER = ['greater', 'greater_equal', 'less', 'less_equal', 'values',
+            'equal', 'invalid']
 
 
 # ------------------------------------------------------------------ strategy
@@ -198,8 +209,32 @@ def cases(draw, tier='quick'):
         if tier == 'thorough' and draw(st.integers(0, 3)) == 0:
             entry = 'pncbo'   # functional form, coordinate keys passed in
         more = [draw(st.sampled_from(OPS)) for i in range(draw(NMORE))]
+        coords = draw(coordsets(fs))
+        chain = []
+        if entry == 'operator' and draw(st.integers(0, 9)) < 4:
+            # the RESULT is used again: (f1 op f2) op2 f3, .mask(..), .eval
+            for i in range(draw(st.integers(1, 2))):
+                ck = draw(st.sampled_from(['op', 'op', 'mask', 'mask',
+                                           'eval']))
+                if ck == 'op':
+                    chain.append(dict(kind='op',
+                                      op=draw(st.sampled_from(OPS)),
+                                      other=draw(A.redraw(fs, FOPTS,
+                                                          share=0.3))))
+                elif ck == 'mask':
+                    chain.append(dict(kind='mask', **draw(maskargs(fs))))
+                else:
+                    cand = [v['name'] for v in fs['vars'] if v['dims'] and
+                            not v.get('coord') and v['name'] not in coords]
+                    if cand:
+                        nm = draw(st.sampled_from(cand))
+                        chain.append(dict(
+                            kind='eval', sep='\n',
+                            copyall=draw(st.booleans()),
+                            stmts=[['n0', draw(exprs([nm], 2, False))]]))
+                    break       # eval ends a chain
         return dict(kind='op', file=fs, other=other, op=op, more=more,
-                    coords=draw(coordsets(fs)), entry=entry)
+                    coords=coords, entry=entry, chain=chain)
     if kind == 'eval':
         fs, operands = draw(twins(fs))
         byname = {v['name']: v for v in fs['vars']}
@@ -217,6 +252,14 @@ def cases(draw, tier='quick'):
             calls.append(dict(stmts=stmts,
                               sep=draw(st.sampled_from(['\n', '; '])),
                               copyall=draw(st.booleans())))
+        if draw(st.integers(0, 2)) == 0:
+            # netCDF keeps attributes and variables in separate namespaces:
+            # a global attribute may carry the name of a variable that the
+            # expression uses; the expression is about the file's ARRAYS
+            nm = draw(st.sampled_from(operands))
+            fs['gattrs'][nm] = draw(st.sampled_from(
+                [{'py': 'float', 'v': 2.5}, {'py': 'int', 'v': 3},
+                 {'np': 'f4', 'v': 0.5}, 'nominal', '1']))
         return dict(kind='eval', file=fs, coords=draw(coordsets(fs)),
                     more=calls[1:], **calls[0])
     # ---- mask
@@ -381,10 +424,71 @@ def check_case(case):
             for fl in r.failures[n0:]:
                 fl.klass = (fl.klass + '@later-call') if fl.klass \
                     else '@later-call'
+        if i == 0:
+            first = (objs.pop('last_out', None), objs.pop('last_computed',
+                                                          None))
         if r.failures or r.rejected:
             break
+    chain = list(case.get('chain') or [])
+    if chain and kind == 'op' and not r.failures and first[0] is not None:
+        _run_chain(r, case, m, first, chain)
+        nt = nt or r.nontrivial
     r.nontrivial = nt
     return r
+
+
+def _observed(prev, out, computed):
+    """model of a result that has already been judged: variables the step
+    computed take the values and masks the library returned (they agree with
+    the model within the stated tolerance; using them keeps tolerance, dtype
+    and not-compared cells from leaking into the next step), variables the
+    step passes through keep the model's arrays"""
+    m2 = prev.copy()
+    for name in computed:
+        if name in out.variables and name in m2.vars:
+            mv = m2.vars[name]
+            arr = A.plain(out.variables[name][...])
+            if not isinstance(arr, np.ma.MaskedArray):
+                arr = np.ma.MaskedArray(arr, mask=np.zeros(arr.shape, bool))
+            m2.vars[name] = S.MVar(name, mv.dims, arr, mv.attrs, mv.fill)
+    return m2
+
+
+def _run_chain(r, case, m, first, chain):
+    """(f1 op f2) op2 f3, (f1 op f2).mask(..), (f1 op f2).eval(..): every
+    step is applied to the previous RESULT; coordinate variables must pass
+    through from the original left operand unchanged at every step"""
+    out, computed = first
+    model = m
+    r.label('chain:%d' % len(chain))
+    for ch in chain:
+        if computed is None:
+            return
+        m2 = _observed(model, out, computed)
+        n0 = len(r.failures)
+        r.label('chained:' + ch['kind'])
+        if ch['kind'] == 'op':
+            objs = dict(ma=m2, mb=S.model_of(ch['other']), fa=out,
+                        fb=S.build_file(ch['other']))
+            _op_step(r, dict(case, op=ch['op'], entry='operator'), objs,
+                     True)
+        elif ch['kind'] == 'mask':
+            objs = dict(m=m2, f=out)
+            _mask_step(r, dict(case, entry=None, preds=ch['preds'],
+                               where=ch['where'],
+                               coordsflag=ch['coordsflag']), objs, True)
+        else:
+            objs = dict(m=m2, f=out)
+            _eval_step(r, dict(case, stmts=ch['stmts'], sep=ch['sep'],
+                               copyall=ch['copyall']), objs, True)
+        for fl in r.failures[n0:]:
+            fl.klass = (fl.klass + '@chained') if fl.klass else '@chained'
+        if r.failures or ch['kind'] == 'eval':
+            return
+        out, computed = objs.get('last_out'), objs.get('last_computed')
+        model = m2
+        if out is None:
+            return
 
 
 # ------------------------------------------------------------------ operators
@@ -509,6 +613,9 @@ def _op_step(r, case, objs, later):
                              tol_for(res.dtype)):
             r.fail('op-' + bad[0], bad[1],
                    klass='masked-var' if va.masked else 'plain-var')
+    if not numpy_raises:
+        objs['last_out'] = out
+        objs['last_computed'] = [n for n, p in plan.items() if p[0] == 'op']
     return r
 
 
@@ -688,7 +795,7 @@ def _mask_step(r, case, objs, later):
                 if applies:
                     emask |= warr
                     r.label('where-applied')
-            for n, v in sorted(preds, key=lambda x: x[0] == 'invalid'):
+            for n, v in sorted(preds, key=lambda x: LIBORDER.index(x[0])):
                 if n == 'less':
                     emask |= cmpv(np.less, v)
                 elif n == 'less_equal':
@@ -716,6 +823,16 @@ def _mask_step(r, case, objs, later):
                         emask |= inn
                         dontcare |= edge
                     else:
+                        with np.errstate(all='ignore'):
+                            cv = np.array(v).astype(data.dtype)
+                        if cv != v:
+                            # numpy.ma.masked_values fills masked cells with
+                            # the value cast to the (integer / boolean)
+                            # dtype and re-derives the mask by ==value: when
+                            # the cast changes the value, cells masked so
+                            # far come back unmasked (numpy's doing)
+                            dontcare |= emask
+                            r.label('masked_values-cast-quirk-not-compared')
                         emask |= d8 == float(v)
         if mv.masked:
             nt = True
@@ -782,6 +899,8 @@ def _mask_step(r, case, objs, later):
             r.fail('mask-values-altered', '%s: unmasked values changed (got '
                    '%s, expected %s)' % (what, S._short(ld[keep]),
                                          S._short(data[keep])), klass=tag)
+    objs['last_out'] = out
+    objs['last_computed'] = [n for n, p in plan.items() if p[3] == 'data']
     return r
 
 
